@@ -40,6 +40,7 @@ struct Th {
   std::thread th;
   sem_t sem;
   bool started = false, finished = false, spinning = false;
+  bool at_start = true;  // waiting at an operation START
   bool skip_decision = false;  // the decision that started this thread already selected its first step
   int mutex_wait = 0;  // blocked on a mutex
   const void* waiting_mutex = nullptr;
@@ -664,11 +665,14 @@ void event(const std::string& line) {
 void yield_point() {
   G& G_ = gg();
   if (!G_.active || tl_tid <= 0 || !G_.running) return;
+  G_.th[tl_tid]->at_start = true;
   sched_point();
+  G_.th[tl_tid]->at_start = false;
   record(K_YIELD, 0, 0, 0, 0, 0, 0);
   // a START is progress
   G_.th[tl_tid]->ro = 0; G_.th[tl_tid]->watch.clear();
 }
+bool at_boundary(int tid) { G& G_ = gg(); return tid <= 0 || tid > G_.nth || G_.th[tid]->at_start || G_.th[tid]->finished; }
 int self() { return tl_tid; }
 uint64_t choose(uint64_t n) {
   G& G_ = gg();
